@@ -5,7 +5,7 @@ open M_c04
         -> val=1 cb=<-|alert> out=<C0|C1|F<alert>>            (model of the REPAIRED code)
      P ...same...  -> the same line computed by the model of the PINNED code (used to name the defect a tree still has)
    and abstract runs of the verifying side's message machine that props/C04.py derives from live scenarios:
-     M <ver> <role c|s> <kex rsa|dhe> <cbmode> <cbarg> <fix_ske 0|1> <offered csv> <msg>...
+     M <ver 11|12|13|211|212 (DTLS)> <role c|s> <kex rsa|dhe> <cbmode> <cbarg> <fix_ske 0|1> <offered csv> <msg>...
         msg: ch:miss | ch:hit:<0|1> (first message: the run starts at the server's ClientHello) | nocert | cert:<leafkey>:<rc>:<ca>:<maxdepth>:<status>.<flags>.<self>,... | ske:<alg>:<sig> | skeu (no signature) | shd | cke | cv:<alg>:<sig> | fin:<vd>
         ideal signatures: sig = 10*signing key + (1 if the signed data is this handshake's own, else 0);
         fin vd: 1 = genuine; under RSA key transport 10*key+1 = computed by the holder of that key's private half
@@ -56,7 +56,7 @@ let () = iter_lines (fun l ->
   | "V" :: ver :: _ :: cbm :: cba :: ca :: depth :: rc :: _ :: rest -> verdict_case fixed ver cbm cba ca depth rc rest
   | "P" :: ver :: _ :: cbm :: cba :: ca :: depth :: rc :: _ :: rest -> verdict_case pinned ver cbm cba ca depth rc rest
   | "M" :: ver :: role :: kex :: cbm :: cba :: fixske :: offered :: msgs ->
-      let c = { p_ver = (if ver = "13" then V13 else V12); p_role = (if role = "s" then VServer else VClient);
+      let c = { p_ver = (if ver = "13" then V13 else V12); p_dtls = (ver = "212" || ver = "211"); p_role = (if role = "s" then VServer else VClient);
                 p_kex = (if kex = "rsa" then KRsa else KDhe); p_cb = callback (int_of_string cbm) (int_of_string cba);
                 p_offered = List.map ni (List.filter (fun x -> x <> "" && x <> "-") (String.split_on_char ',' offered));
                 p_cr = ni "1"; p_sr = ni "2"; p_fix_ske_alg = (fixske = "1") } in
